@@ -192,6 +192,10 @@ func runC11(c *core.Ctx) {
 		runC11Nested(c, c.Index/41)
 		return
 	}
+	if c.Index%47 == 9 {
+		runC11NullInside(c, c.Index/47)
+		return
+	}
 	if c.Index%43 == 11 {
 		runC11Floats(c, c.Index/43)
 		return
@@ -365,6 +369,7 @@ func init() {
 			f.atLeast("obs:tojson-refused-unencodable-content", 200)
 			f.atLeast("obs:serialisation-after-float-case", 500)
 			f.atLeast("obs:nested-tojson", 1000)
+			f.atLeast("obs:nulls-inside-values", 500)
 			f.atLeast("obs:huge-round-trips", int64(len(hugeRoundTripKinds)))
 			f.atLeast("obs:sized-round-trips", int64(sizedRoundTripCases()))
 			f.atLeast("obs:lockstep-drain", 2000)
